@@ -164,6 +164,11 @@ func (d *Directory) AddTimeBucket(tbk *io.TimeBucketKey, f *io.TimeBucketInfo) (
 	d.Lock()
 	defer d.Unlock()
 
+	// refuse a schema the file header cannot hold before anything is created on disk
+	if err = f.ValidateSchema(); err != nil {
+		return fmt.Errorf("cannot create time bucket %s: %w", tbk.String(), err)
+	}
+
 	catkeySplit := tbk.GetCategories()
 	datakeySplit := tbk.GetItems()
 
